@@ -104,6 +104,29 @@ pub fn run(prop: &str, tier: &str, seed: u64, out_dir: &Path, threads: usize) ->
                 }
             }
         }
+        // (1b) curated programs, exhaustively scheduled in every run: the shapes behind earlier findings (a TLC
+        // counterexample of MC_Conc: the parent is removed and re-created with ANOTHER TYPE while a child is being
+        // created) and their variants; random sampling of 3+1 programs finds them only now and then
+        {
+            let c = |op: &str, p: &str, d: &[i64]| Call::new(op, &p.split('/').collect::<Vec<_>>(), d);
+            let a_dir: InitMap = vec![("a", "dir", vec![])];
+            let a_dir_b_file: InitMap = vec![("a", "dir", vec![]), ("a/b", "file", vec![1])];
+            let a_dir_b_dir: InitMap = vec![("a", "dir", vec![]), ("a/b", "dir", vec![])];
+            let curated: Vec<(InitMap, Vec<Vec<Call>>)> = vec![
+                (a_dir.clone(), vec![vec![c("remove_dir", "a", &[]), c("cf_open", "a", &[]), c("close", "a", &[2])], vec![c("create_dir", "a/b", &[])]]),
+                (a_dir.clone(), vec![vec![c("remove_dir", "a", &[]), c("cf_open", "a", &[]), c("close", "a", &[2])], vec![c("cf_open", "a/b", &[]), c("close", "a/b", &[3])]]),
+                (a_dir.clone(), vec![vec![c("remove_dir", "a", &[]), c("cf_open", "a", &[]), c("close", "a", &[2])], vec![c("create_dir", "a/c", &[]), c("exists", "a/c", &[])]]),
+                (a_dir_b_file.clone(), vec![vec![c("remove_file", "a/b", &[]), c("create_dir", "a/b", &[])], vec![c("ap_open", "a/b", &[]), c("close", "a/b", &[3])]]),
+                (a_dir_b_file.clone(), vec![vec![c("remove_file", "a/b", &[]), c("remove_dir", "a", &[])], vec![c("cf_open", "a/b", &[]), c("close", "a/b", &[2])]]),
+                (a_dir_b_file.clone(), vec![vec![c("remove_file", "a/b", &[]), c("remove_dir", "a", &[]), c("cf_open", "a", &[]), c("close", "a", &[2])], vec![c("cf_open", "a/c", &[]), c("close", "a/c", &[3])]]),
+                (a_dir_b_dir.clone(), vec![vec![c("remove_dir", "a/b", &[]), c("cf_open", "a/b", &[]), c("close", "a/b", &[2])], vec![c("read_dir", "a", &[]), c("metadata", "a/b", &[])]]),
+                (a_dir_b_dir.clone(), vec![vec![c("remove_dir", "a/b", &[]), c("remove_dir", "a", &[])], vec![c("create_dir", "a/c", &[]), c("read_dir", "a", &[])]]),
+                (vec![], vec![vec![c("create_dir", "a", &[]), c("create_dir", "a/b", &[])], vec![c("create_dir", "a", &[]), c("remove_dir", "a", &[])]]),
+            ];
+            for (init, progs) in curated {
+                jobs.push(Job { prop: "C16", cfg: "mem".into(), init, pre_remove: vec![], progs, max_preempt: None, max_schedules: 20000 });
+            }
+        }
         // (2) seeded 2 x 2, 2 x 3 and 3 x 1 programs, preemption bounded
         let n_extra = if q { 800 } else { 20000 };
         for _ in 0..n_extra {
